@@ -85,7 +85,7 @@ func Inventory(dir string) ([]string, error) {
 		for _, f := range p.Syntax {
 			for _, d := range f.Decls {
 				if fd, ok := d.(*ast.FuncDecl); ok {
-					keys = append(keys, FuncKey(p.PkgPath, fd))
+					keys = append(keys, FuncKey(p.PkgPath, fd)+"\t"+sigText(p, fd))
 					for _, cd := range closureDefs(p, fd) {
 						keys = append(keys, cd.key)
 					}
@@ -96,6 +96,34 @@ func Inventory(dir string) ([]string, error) {
 	sort.Strings(keys)
 	return keys, nil
 }
+
+// sigText: parameter names and types, result types (what the rules' anchors rely on).
+func sigText(p *packages.Package, fd *ast.FuncDecl) string {
+	var b strings.Builder
+	field := func(fl *ast.FieldList) {
+		if fl == nil {
+			return
+		}
+		for _, f := range fl.List {
+			t := types.ExprString(f.Type)
+			if len(f.Names) == 0 {
+				b.WriteString("_ " + t + ",")
+			}
+			for _, n := range f.Names {
+				b.WriteString(n.Name + " " + t + ",")
+			}
+		}
+	}
+	b.WriteString("(")
+	field(fd.Type.Params)
+	b.WriteString(")(")
+	field(fd.Type.Results)
+	b.WriteString(")")
+	return b.String()
+}
+
+// invSig: function key -> signature text recorded in the inventory ("" when the inventory has none).
+var invSig = map[string]string{}
 
 func readInventory(path string) (map[string]bool, error) {
 	f, err := os.Open(path)
@@ -108,7 +136,12 @@ func readInventory(path string) (map[string]bool, error) {
 	for sc.Scan() {
 		l := strings.TrimSpace(sc.Text())
 		if l != "" && !strings.HasPrefix(l, "#") {
-			inv[l] = true
+			if k, sig, has := strings.Cut(l, "\t"); has {
+				inv[k] = true
+				invSig[k] = sig
+			} else {
+				inv[l] = true
+			}
 		}
 	}
 	return inv, sc.Err()
@@ -131,52 +164,54 @@ func closureDefs(p *packages.Package, fd *ast.FuncDecl) []*newFunc {
 	}
 	ast.Inspect(fd.Body, func(n ast.Node) bool {
 		as, ok := n.(*ast.AssignStmt)
-		if !ok || as.Tok != token.DEFINE || len(as.Lhs) != 1 || len(as.Rhs) != 1 {
+		if !ok || as.Tok != token.DEFINE || len(as.Lhs) != len(as.Rhs) {
 			return true
 		}
-		id, ok := as.Lhs[0].(*ast.Ident)
-		lit, ok2 := as.Rhs[0].(*ast.FuncLit)
-		if !ok || !ok2 || id.Name == "_" {
-			return true
-		}
-		obj := p.TypesInfo.Defs[id]
-		if obj == nil {
-			return true
-		}
-		// every use is the function of a direct call; no reassignment; not recursive
-		onlyCalled := true
-		uses := 0
-		var stack []ast.Node
-		ast.Inspect(fd.Body, func(m ast.Node) bool {
-			if m == nil {
-				stack = stack[:len(stack)-1]
-				return true
+		for li := range as.Lhs {
+			id, ok := as.Lhs[li].(*ast.Ident)
+			lit, ok2 := as.Rhs[li].(*ast.FuncLit)
+			if !ok || !ok2 || id.Name == "_" {
+				continue
 			}
-			stack = append(stack, m)
-			u, isId := m.(*ast.Ident)
-			if !isId || p.TypesInfo.Uses[u] != obj {
-				return true
+			obj := p.TypesInfo.Defs[id]
+			if obj == nil {
+				continue
 			}
-			parent := stack[len(stack)-2]
-			if as2, isAs := parent.(*ast.AssignStmt); isAs && len(as2.Lhs) == 1 && len(as2.Rhs) == 1 {
-				if b, isB := as2.Lhs[0].(*ast.Ident); isB && b.Name == "_" {
-					return true // `_ = name`: the keep-alive the normaliser itself inserts
+			// every use is the function of a direct call; no reassignment; not recursive
+			onlyCalled := true
+			uses := 0
+			var stack []ast.Node
+			ast.Inspect(fd.Body, func(m ast.Node) bool {
+				if m == nil {
+					stack = stack[:len(stack)-1]
+					return true
 				}
+				stack = append(stack, m)
+				u, isId := m.(*ast.Ident)
+				if !isId || p.TypesInfo.Uses[u] != obj {
+					return true
+				}
+				parent := stack[len(stack)-2]
+				if as2, isAs := parent.(*ast.AssignStmt); isAs && len(as2.Lhs) == 1 && len(as2.Rhs) == 1 {
+					if b, isB := as2.Lhs[0].(*ast.Ident); isB && b.Name == "_" {
+						return true // `_ = name`: the keep-alive the normaliser itself inserts
+					}
+				}
+				uses++
+				call, isCall := parent.(*ast.CallExpr)
+				if !isCall || ast.Unparen(call.Fun) != ast.Expr(u) {
+					onlyCalled = false
+				}
+				if u.Pos() >= lit.Pos() && u.End() <= lit.End() {
+					onlyCalled = false // recursive
+				}
+				return true
+			})
+			if !onlyCalled || uses == 0 {
+				continue
 			}
-			uses++
-			call, isCall := parent.(*ast.CallExpr)
-			if !isCall || ast.Unparen(call.Fun) != ast.Expr(u) {
-				onlyCalled = false
-			}
-			if u.Pos() >= lit.Pos() && u.End() <= lit.End() {
-				onlyCalled = false // recursive
-			}
-			return true
-		})
-		if !onlyCalled || uses == 0 {
-			return true
+			out = append(out, &newFunc{key: FuncKey(p.PkgPath, fd) + "$" + id.Name, pkg: p, decl: &ast.FuncDecl{Name: id, Type: lit.Type, Body: lit.Body}, obj: obj, closure: true, defStmt: as})
 		}
-		out = append(out, &newFunc{key: FuncKey(p.PkgPath, fd) + "$" + id.Name, pkg: p, decl: &ast.FuncDecl{Name: id, Type: lit.Type, Body: lit.Body}, obj: obj, closure: true, defStmt: as})
 		return true
 	})
 	return out
@@ -200,7 +235,7 @@ func findNew(pkgs []*packages.Package, inv map[string]bool) []*newFunc {
 					continue
 				}
 				key := FuncKey(p.PkgPath, fd)
-				if inv[key] {
+				if inv[key] && (invSig[key] == "" || invSig[key] == sigText(p, fd)) {
 					continue
 				}
 				obj, _ := p.TypesInfo.Defs[fd.Name].(*types.Func)
@@ -244,7 +279,7 @@ func Normalize(dir, inventoryPath string) (out string, notes []string, cleanup f
 		// let the main load report the error
 		return dir, nil, cleanup, nil
 	}
-	if len(findNew(pkgs, inv)) == 0 {
+	if len(findNew(pkgs, inv)) == 0 && !hasTableLoops(pkgs) {
 		return dir, nil, cleanup, nil
 	}
 	tmp, err := os.MkdirTemp("", "vnorm-")
@@ -279,7 +314,10 @@ func Normalize(dir, inventoryPath string) (out string, notes []string, cleanup f
 				return dir, nil, cleanup, werr
 			}
 			inlined[last.key]--
-			if last.method == "xtools" && !forceSplice[last.site] {
+			if last.method == "table" {
+				gaveUp[last.site] = true
+				failed = append(failed, fmt.Sprintf("table loop %s (rewritten form did not type-check: %v)", strings.TrimPrefix(last.site, Mod), err))
+			} else if last.method == "xtools" && !forceSplice[last.site] {
 				forceSplice[last.site] = true // try the statement-level splice instead
 			} else {
 				gaveUp[last.site] = true
@@ -305,6 +343,7 @@ func Normalize(dir, inventoryPath string) (out string, notes []string, cleanup f
 				var target *ast.CallExpr
 				var tnf *newFunc
 				var tsite string
+				var iifeSig *types.Signature
 				inGo := false
 				ordinal := map[string]int{}
 				var stack []ast.Node
@@ -316,6 +355,33 @@ func Normalize(dir, inventoryPath string) (out string, notes []string, cleanup f
 					stack = append(stack, n)
 					call, ok := n.(*ast.CallExpr)
 					if !ok {
+						return true
+					}
+					// an immediately-invoked function literal in statement position (what is left when a callback
+					// helper has been inlined): its body is spliced in place
+					if lit, isLit := ast.Unparen(call.Fun).(*ast.FuncLit); isLit && target == nil && len(stack) >= 2 {
+						_, inGoStmt := stack[len(stack)-2].(*ast.GoStmt)
+						_, inDefer := stack[len(stack)-2].(*ast.DeferStmt)
+						if _, isExprStmt := stack[len(stack)-2].(*ast.ExprStmt); !isExprStmt {
+							return true // only a literal called for its effects (the pinned tree has none of those)
+						}
+						encl := ""
+						for _, anc := range stack {
+							if fd, isFD := anc.(*ast.FuncDecl); isFD {
+								encl = FuncKey(p.PkgPath, fd)
+							}
+						}
+						if !inGoStmt && !inDefer && encl != "" {
+							ordinal[encl+">iife"]++
+							site := fmt.Sprintf("%s>iife#%d", encl, ordinal[encl+">iife"])
+							if !gaveUp[site] {
+								sig, _ := p.TypesInfo.TypeOf(lit).(*types.Signature)
+								target, tsite = call, site
+								tnf = &newFunc{key: encl + "$iife", pkg: p, decl: &ast.FuncDecl{Name: ast.NewIdent("_iife"), Type: lit.Type, Body: lit.Body}, closure: true}
+								iifeSig = sig
+								inGo = false
+							}
+						}
 						return true
 					}
 					id := calleeIdent(call)
@@ -364,14 +430,14 @@ func Normalize(dir, inventoryPath string) (out string, notes []string, cleanup f
 				if err != nil {
 					return dir, nil, cleanup, err
 				}
-				calleeFileName := tnf.pkg.Fset.File(tnf.decl.Pos()).Name()
+				calleeFileName := tnf.pkg.Fset.File(tnf.decl.Body.Pos()).Name()
 				calleeContent, err := os.ReadFile(calleeFileName)
 				if err != nil {
 					return dir, nil, cleanup, err
 				}
 				var calleeFile *ast.File
 				for _, cf := range tnf.pkg.Syntax {
-					if cf.Pos() <= tnf.decl.Pos() && tnf.decl.End() <= cf.End() {
+					if cf.Pos() <= tnf.decl.Body.Pos() && tnf.decl.Body.End() <= cf.End() {
 						calleeFile = cf
 					}
 				}
@@ -382,7 +448,7 @@ func Normalize(dir, inventoryPath string) (out string, notes []string, cleanup f
 				if inGo {
 					seq++
 					sc := &spliceCtx{fset: p.Fset, callerPkg: p.Types, callerInfo: p.TypesInfo, callerFile: f, callerSrc: content,
-						calleeDecl: tnf.decl, calleeInfo: tnf.pkg.TypesInfo, calleeSrc: calleeContent, calleeFile: calleeFile, seq: seq, closure: tnf.closure}
+						calleeDecl: tnf.decl, calleeInfo: tnf.pkg.TypesInfo, calleeSrc: calleeContent, calleeFile: calleeFile, seq: seq, closure: tnf.closure, sig: iifeSig}
 					if out, err := sc.spliceGo(target); err != nil {
 						why = err.Error()
 					} else {
@@ -408,7 +474,7 @@ func Normalize(dir, inventoryPath string) (out string, notes []string, cleanup f
 				if newContent == nil {
 					seq++
 					sc := &spliceCtx{fset: p.Fset, callerPkg: p.Types, callerInfo: p.TypesInfo, callerFile: f, callerSrc: content,
-						calleeDecl: tnf.decl, calleeInfo: tnf.pkg.TypesInfo, calleeSrc: calleeContent, calleeFile: calleeFile, seq: seq, closure: tnf.closure}
+						calleeDecl: tnf.decl, calleeInfo: tnf.pkg.TypesInfo, calleeSrc: calleeContent, calleeFile: calleeFile, seq: seq, closure: tnf.closure, sig: iifeSig}
 					if out, err := sc.splice(target); err != nil {
 						why += "; " + err.Error()
 					} else {
@@ -440,7 +506,24 @@ func Normalize(dir, inventoryPath string) (out string, notes []string, cleanup f
 			}
 		}
 		if !progress {
-			break
+			// no call left to inline: loops over constant local tables
+			st, err := findTableStep(pkgs, gaveUp, &seq)
+			if err != nil {
+				return dir, nil, cleanup, err
+			}
+			if st == nil {
+				break
+			}
+			old, err := os.ReadFile(st.file)
+			if err != nil {
+				return dir, nil, cleanup, err
+			}
+			if err := os.WriteFile(st.file, st.content, 0o644); err != nil {
+				return dir, nil, cleanup, err
+			}
+			k := "table:" + st.what
+			last = &undo{st.file, old, st.site, k, "table"}
+			inlined[k]++
 		}
 	}
 	for k, n := range inlined {
@@ -455,17 +538,25 @@ func Normalize(dir, inventoryPath string) (out string, notes []string, cleanup f
 				kept = true
 			}
 		}
-		if !kept && !strings.Contains(k, "$") {
+		if !kept && !strings.Contains(k, "$") && !strings.HasPrefix(k, "table:") {
 			InlinedAway[k] = true
 		}
 	}
-	var keys []string
+	var keys, tkeys []string
 	for k, n := range inlined {
+		if strings.HasPrefix(k, "table:") {
+			tkeys = append(tkeys, fmt.Sprintf("%s x%d", strings.TrimPrefix(k, "table:"), n))
+			continue
+		}
 		keys = append(keys, fmt.Sprintf("%s x%d", strings.TrimPrefix(k, Mod), n))
 	}
 	sort.Strings(keys)
+	sort.Strings(tkeys)
 	if len(keys) > 0 {
 		notes = append(notes, "functions not in the frozen inventory were inlined into their callers before analysis: "+strings.Join(keys, ", "))
+	}
+	if len(tkeys) > 0 {
+		notes = append(notes, "loops over constant local tables were unrolled before analysis: "+strings.Join(tkeys, ", "))
 	}
 	if len(failed) > 0 {
 		sort.Strings(failed)
